@@ -4,7 +4,10 @@
    traversal yields and changes nothing else; chmod changes nothing but mode fields, and only of entries its traversal
    names. (Which entries a traversal yields is C08's subject; the value a mode becomes is the expression level.) Without
    follow the two are put together for chown: in every well-formed state it succeeds and sets the requested ids on exactly the
-   argument (recursive: everything at or below it) and changes nothing else (Memfs/LinkFacts.v, from C08's exactness theorem). *)
+   argument (recursive: everything at or below it) and changes nothing else (Memfs/LinkFacts.v, from C08's exactness theorem);
+   and chmod of a single entry (no recursion, no follow) is exactly one application of the per-entry rule: the grammar's value
+   v for the entry's kind is stored under the path (with the kind's type bits) when it differs from the current mode and is not 0
+   (KF-C11-octal-zero), nothing else changes, and a link is left alone. *)
 From stdpp Require Import gmap.
 From Coq Require Import List NArith.
 From RV Require Import Base.Str Path.Helpers Path.Expand Chmod.Sym Chmod.SymFacts Memfs.State Memfs.Ops Memfs.Walk Memfs.WalkOps Memfs.ChmodFacts Memfs.Wf Memfs.LinkFacts.
@@ -86,3 +89,20 @@ Theorem C11_chown_nofollow : forall env m s o p r, WF m -> co_follow o = false -
     m_data m' = m_data m /\ m_cwd m' = m_cwd m /\ m_root m' = m_root m.
 Proof. exact chown_nofollow. Qed.
 Print Assumptions C11_chown_nofollow.
+
+(* chmod(path, ..) without recursion and follow: one application of the per-entry rule ... *)
+Theorem C11_chmod_single : forall env m s o p r, WF m -> ch_follow o = false -> ch_recursive o = false ->
+  resolve env m s = inl p -> m_ents m !! p = Some r ->
+  chmod_op env m s o = Done (let '(m', e) := chmod_item_apply o m r in (m', match e with None => inl tt | Some e => inr e end)).
+Proof. exact chmod_single. Qed.
+Print Assumptions C11_chmod_single.
+
+(* ... which stores exactly the grammar's value and changes nothing else *)
+Theorem C11_chmod_single_value : forall env m s o p r v, WF m -> ch_follow o = false -> ch_recursive o = false ->
+  resolve env m s = inl p -> m_ents m !! p = Some r -> e_link r = false ->
+  (if e_dir r then mode_for r (ch_dirs o) (ch_sym o) else if e_file r then mode_for r (ch_files o) (ch_sym o) else inl 0%N) = inl v ->
+  v <> e_mode r -> v <> 0%N ->
+  exists m', chmod_op env m s o = Done (m', inl tt) /\ m_ents m' !! p = Some (set_mode r (Some v)) /\
+        (forall q, q <> p -> m_ents m' !! q = m_ents m !! q) /\ m_data m' = m_data m /\ m_cwd m' = m_cwd m.
+Proof. exact chmod_single_value. Qed.
+Print Assumptions C11_chmod_single_value.
